@@ -281,9 +281,9 @@ MANIFEST_TEXT = {
         "technique": "Lean 4 refinement proof (buffered bit reader vs ideal bit string) + differential check through the public API and in situ through a guarded capacity hook",
     },
     "C18": {
-        "text": "Lean theorems about the model of the canonical-code builder and the bitstream-io trie (see Props/C18.lean): trie insertion/finalisation lemmas, the single-symbol zero-bit case, canonical (not stream) order. Correspondence through the public CanonicalHuffmanTree / BitBufReader API: the real code, the model and an independent specification (Kraft sum = 1 or single length-1 symbol; next_code assignment; prefix-match decoding) must agree on acceptance, longest_code_len and every decoded symbol, exhaustively over small vectors and on random complete / under- / over-subscribed vectors over the real alphabets.",
-        "note": "Partial: the general theorem 'build succeeds iff Kraft sum = 1 or single length-1 symbol' is stated in the Props file with the part proved so far; the equivalence is decided per generated case against the independent specification. Trusted: see evidence.",
-        "technique": "Lean 4 proof of trie/canonical-code lemmas + exhaustive small-vector three-way differential check (code, model, RFC specification)",
+        "text": "Lean theorem C18_accept_kraft: for EVERY code-length vector, if the model of CanonicalHuffmanTree::new accepts it then either exactly one symbol is used and its length is 1 (the zero-bit special case) or the Kraft sum of the used lengths is exactly 1 - no incomplete and no over-subscribed length set is ever accepted (proof: leaf weights in the bitstream-io trie - an insertion adds 2^(H-|code|), a finalised trie weighs 2^H -, the canonical assignment gives every symbol a code of its given length, sums are invariant under the (length, symbol) sort). Further: insertion into a complete trie always fails, compilation requires completeness, the single-symbol code consumes zero bits, decoding on a complete tree never reaches a panic site. Correspondence through the public CanonicalHuffmanTree / BitBufReader API: the real code, the model and an independent specification (Kraft sum = 1 or single length-1 symbol; next_code assignment; prefix-match decoding) must agree on acceptance, longest_code_len and every decoded symbol, exhaustively over small vectors and on random complete / under- / over-subscribed vectors over the real alphabets.",
+        "note": "Partial: the converse (every Kraft-complete vector is accepted, with the canonical codes of the specification) is decided per generated case against the independent specification, not yet by a theorem. Trusted: see evidence.",
+        "technique": "Lean 4 proof (trie weight invariant: accepted => Kraft sum 1; trie/canonical-code lemmas) + exhaustive small-vector three-way differential check (code, model, RFC specification)",
     },
     "C07": {
         "text": "Lean theorems about the model of the canonical-code builder and the lossless header-phase validator (see the Props file: each violation class named in the property is a rejection lemma of the model; the code tables equal the specification's). The whole-stream claim 'accepted => the reference decodes the header phase' is evaluated on the real code against libwebp 1.3.1 (executed, not modelled) over specification-synthesised streams with each rule violated in turn, encoder output and its mutations; the model must agree with webpsan on every payload.",
